@@ -123,11 +123,19 @@ def write_pdf(pages: list[dict], *, info: dict[str, str] | None = None, compress
             else:
                 num = next_num
                 next_num += 1
-                objs[num] = _stream(
-                    b"/Type /XObject /Subtype /Image /Width %d /Height %d /ColorSpace /DeviceGray "
-                    b"/BitsPerComponent 8 /Filter /DCTDecode" % (int(im["w"]), int(im["h"])),
-                    data,
-                )
+                if im.get("flate"):
+                    # a filter chain: the JPEG file is additionally deflated ([/FlateDecode /DCTDecode]); what the reader hands out is still the JPEG
+                    objs[num] = _stream(
+                        b"/Type /XObject /Subtype /Image /Width %d /Height %d /ColorSpace /DeviceGray "
+                        b"/BitsPerComponent 8 /Filter [/FlateDecode /DCTDecode]" % (int(im["w"]), int(im["h"])),
+                        zlib.compress(data, 9),
+                    )
+                else:
+                    objs[num] = _stream(
+                        b"/Type /XObject /Subtype /Image /Width %d /Height %d /ColorSpace /DeviceGray "
+                        b"/BitsPerComponent 8 /Filter /DCTDecode" % (int(im["w"]), int(im["h"])),
+                        data,
+                    )
                 if key is not None:
                     shared[key] = num
             xobj_entries.append(_name(nm) + b" %d 0 R" % num)
